@@ -2,24 +2,23 @@ CONSTANTS
   Server = {1, 2, 3}
   MaxTerm = 2
   MaxProposals = 1
-  MaxCrashes = 1
-  MaxDrops = 1
-  MaxDups = 0
+  MaxCrashes = 0
+  MaxDrops = 0
+  MaxDups = 1
   MaxHeartbeats = 0
   MaxLog = 3
-  MaxNet = 4
+  MaxNet = 6
   MaxEnts = 0
   SimDepth = 0
   W_CommitAnyTerm = FALSE
   W_VoteIgnoreVoted = FALSE
   W_VoteIgnoreLog = FALSE
   W_NoPersistVote = FALSE
-  W_AppendAlwaysTruncates = FALSE
+  W_AppendAlwaysTruncates = TRUE
   W_HeartbeatCommitUnbounded = FALSE
   W_QuorumMinusOne = FALSE
 INIT Init
 NEXT Next
 CONSTRAINT NetBound
 VIEW view
-INVARIANTS ElectionSafety LogMatching StateMachineSafety LeaderCompleteness CommitWithinLog PersistedMatchesVolatile
-PROPERTY HardStateMonotonic
+INVARIANT EmitAttack
